@@ -26,7 +26,7 @@ META = {
               "astropy NDDataArray -> holder of the data array (HDF5 job; the real NssGrid constructor, meta and axes code runs)"],
     "assumptions": ["REAL mode", "rows non-decreasing, query strictly inside (row[0] < x < row[-1]) as in the statement's quantifier"],
 }
-LEDGER = {"quick": 214, "thorough": 270}
+LEDGER = {"quick": 225, "thorough": 280}
 MOD = "nuspacesim.utils.interp"
 
 
@@ -67,7 +67,7 @@ def vec_run(M, n):
     return run
 
 
-def slice_run(shape, axis, by_name):
+def slice_run(shape, axis, by_name, int_grid=False):
     nd = len(shape)
     names = ["ax%d" % i for i in range(nd)]
 
@@ -75,13 +75,13 @@ def slice_run(shape, axis, by_name):
         ns = _ns()
         data = _np.empty(shape, dtype=object)
         for idx in _np.ndindex(*shape):
-            data[idx] = SV(t=z3.Real("d_" + "_".join(map(str, idx))))
+            data[idx] = SV(t=z3.Real("d_" + "_".join(map(str, idx))), isint=int_grid)
         axes = []
         for i, s in enumerate(shape):
             axes.append(symarr([f"a{i}_{k}" for k in range(s)]))
             for k in range(s - 1):
                 C.assume(z3.Real(f"a{i}_{k}") < z3.Real(f"a{i}_{k+1}"))
-        g = stubs.GridStub(SymArray(data), axes, names)
+        g = stubs.GridStub(SymArray(data, "int" if int_grid else "float"), axes, names)  # (an integer table: "for any dtype")
         v = z3.Real("v")
         C.assume(v >= z3.Real(f"a{axis}_0"), v <= z3.Real(f"a{axis}_{shape[axis]-1}"))
         out = ns["grid_slice_interp"](g, SV(t=v), names[axis] if by_name else axis)
@@ -139,8 +139,8 @@ def job_vec(M, n, tier):
     return harness.run_job(f"vec_1d_interp(M={M},rows={n})", vec_run(M, n), timeout_ms=60000 if tier == "quick" else 300000, second=(tier == "thorough"))
 
 
-def job_slice(shape, axis, by_name, tier):
-    return harness.run_job(f"grid_slice_interp(shape={tuple(shape)},axis={axis},{'name' if by_name else 'index'})", slice_run(tuple(shape), axis, by_name),
+def job_slice(shape, axis, by_name, tier, int_grid=False):
+    return harness.run_job(f"grid_slice_interp(shape={tuple(shape)},axis={axis},{'name' if by_name else 'index'}{', integer grid' if int_grid else ''})", slice_run(tuple(shape), axis, by_name, int_grid),
                            timeout_ms=60000, second=(tier == "thorough"))
 
 
@@ -334,6 +334,7 @@ def jobs(tier, seed):
         for ax in range(len(shape)):
             for by in (False, True):
                 out.append((f"slice{shape}{ax}{by}", "job_slice", {"shape": list(shape), "axis": ax, "by_name": by, "tier": tier}))
+    out.append(("sliceint", "job_slice", {"shape": [3, 2], "axis": 0, "by_name": False, "tier": tier, "int_grid": True}))
     out.append(("sliceout", "job_slice_outside", {"tier": tier}))
     out.append(("hdf5", "job_hdf5", {"tier": tier}))
     for v in ("1", "2", "3"):
@@ -362,6 +363,38 @@ def replay(v):
         return tables.replay_data(v)
     if job.startswith("NssGrid HDF5"):
         return _replay_hdf5(v["obligation"])
+    if job.startswith("grid_slice_interp(shape="):
+        # real NssGrid objects of several dtypes and dimensions: slices at nodes and between nodes against the
+        # linear blend of the two neighbouring sub-grids computed independently in float64
+        import warnings
+
+        from nuspacesim.utils.grid import NssGrid
+        from nuspacesim.utils.interp import grid_slice_interp
+
+        warnings.simplefilter("ignore")
+        rng = np.random.default_rng(18)
+        for dtype in (np.float64, np.int64, np.float32, np.int16):
+            for shape in ((3, 2), (2, 3, 2), (4, 3)):
+                raw = rng.uniform(-300, 300, shape)
+                data = raw.astype(dtype)
+                axes = [np.sort(rng.uniform(0, 10, n)) for n in shape]
+                names = [f"ax{i}" for i in range(len(shape))]
+                g = NssGrid(data, axes, names)
+                for ax in range(len(shape)):
+                    for k in range(shape[ax] - 1):
+                        for frac in (0.0, 0.37, 1.0):
+                            val = axes[ax][k] + frac * (axes[ax][k + 1] - axes[ax][k])
+                            for sel in (ax, names[ax]):
+                                out = grid_slice_interp(g, val, sel)
+                                d0, d1 = np.take(data, k, axis=ax).astype(float), np.take(data, k + 1, axis=ax).astype(float)
+                                want = d0 + (val - axes[ax][k]) * (d1 - d0) / (axes[ax][k + 1] - axes[ax][k])
+                                got = np.asarray(out.data, dtype=float)
+                                if got.shape != want.shape or not np.allclose(got, want, rtol=1e-6, atol=1e-4):
+                                    j = np.unravel_index(int(np.argmax(np.abs(got - want))), want.shape) if got.shape == want.shape else None
+                                    return {"reproduced": True, "key": "grid_slice_interp: slice is not the linear blend of the neighbouring sub-grids",
+                                            "detail": f"{np.dtype(dtype).name} grid of shape {shape}, axis {sel!r}, coordinate {frac:.2f} of the way from node {k} to node {k+1}: "
+                                                      + (f"cell {j}: {got[j]!r} returned, blend is {want[j]!r}" if j is not None else f"shape {got.shape} vs {want.shape}")}
+        return {"reproduced": False, "key": None, "detail": "real grids (float64, int64, float32, int16; 2-D and 3-D): slices equal the blend"}
     m = v.get("model") or {}
     if job.startswith("vec_1d_interp"):
         M = int(job.split("M=")[1].split(",")[0])
